@@ -121,6 +121,14 @@ def h_metarize(E, N, C, which, excl, prop):
     elif prop == 'C04':
         T, ids, prms, ch = build(E, N, C, which, excl, K=2, sym=('k0', 'q', 'lb'), nan=False)
         kind, tab = run_steps(ch, which, ['_calculate_sligrolay_base_height', '_add_sligrolay_information'])
+    elif prop == 'C04W':
+        # the C04 clauses on the table of the whole metarize() (the steps share whatever metarize() hands from one to the next)
+        T, ids, prms, ch = build(E, N, C, which, excl, K=2, sym=('k0', 'q', 'lb'), nan=False)
+        with WarningLog():
+            kind, tab = outcome(ch.metarize, which)
+        if kind == 'ok':
+            tab = getattr(ch, which)
+        prop = 'C04'
     else:
         T, ids, prms, ch = build(E, N, C, which, excl, K=3, sym=('q',))
         if prop == 'C01':
